@@ -65,6 +65,7 @@ class SeamState:
         self.stream_plan = None  # fault plan for the next open() of a sim:// path
         self.devnull_fail = False
         self.devnull_failed = 0
+        self.devnull_opens = 0
         self.text_buffer = 8192
         self.open_handles = []
 
@@ -291,6 +292,8 @@ def sim_open(file, mode="r", *args, **kwargs):
         SEAM.open_handles.append(raw)
         buf = io.BufferedWriter(raw, buffer_size=max(1, int(SEAM.text_buffer)))
         return io.TextIOWrapper(buf, encoding=kwargs.get("encoding") or "utf-8", newline=kwargs.get("newline"))
+    if file == os.devnull:
+        SEAM.devnull_opens += 1
     if file == os.devnull and SEAM.devnull_fail:
         SEAM.devnull_fail = False
         SEAM.devnull_failed += 1
